@@ -200,10 +200,10 @@ def _diff_union_types(old: Schema, new: Schema) -> Iterator[SchemaChange]:
         old_type_names = set(t.name for t in old_union.types)
         new_type_names = set(t.name for t in new_union.types)
 
-        for t in old_type_names - new_type_names:
+        for t in sorted(old_type_names - new_type_names):
             yield TypeRemovedFromUnion(t, old_union)
 
-        for t in new_type_names - old_type_names:
+        for t in sorted(new_type_names - old_type_names):
             yield TypeAddedToUnion(t, new_union)
 
 
@@ -245,10 +245,10 @@ def _diff_directives(old: Schema, new: Schema) -> Iterator[SchemaChange]:
             old_locs = set(old_directive.locations)
             new_locs = set(new_directive.locations)
 
-            for loc in old_locs - new_locs:
+            for loc in sorted(old_locs - new_locs):
                 yield DirectiveLocationRemoved(old_directive, loc)
 
-            for loc in new_locs - old_locs:
+            for loc in sorted(new_locs - old_locs):
                 yield DirectiveLocationAdded(old_directive, loc)
 
             for d in _diff_directive_arguments(old_directive, new_directive):
